@@ -126,6 +126,13 @@ Theorem C05_unsol_retry_identical : forall cfg h s resp n rt dl t s1 o1,
 Proof. exact unsol_retry_identical. Qed.
 Print Assumptions C05_unsol_retry_identical.
 
+Theorem C05_all_retries_identical : forall cfg h s,
+  Reach cfg h s ->
+  forall h1 q rest, h = h1 ++ OInfo (IUnsolTimeout q true) :: rest ->
+    exists dest b h2, rest = OTx dest b :: h2 /\ opened_by h1 dest b q.
+Proof. exact all_retries_identical. Qed.
+Print Assumptions C05_all_retries_identical.
+
 (* ---------- the hypotheses are satisfiable: concrete histories ----------------------------------------------- *)
 
 Definition ex_cfg (unsol : bool) : ocfg :=
